@@ -224,14 +224,14 @@ func childPaths(b run.Batch, r *ev.Result) {
 	// ---- jobs
 	step("impact/round", impactStep)
 	step("rotation/not-due", rotStep)
-	step("rotation/due", func() string { drv.SetClock(3201); return rotStep() })
+	step("rotation/due", func() string { setClock(3201); return rotStep() })
 	step("impact/after-rotation", impactStep)
 	step("stats/archived", get("/api/v1/all-device-stats?timeslot_offset=0"))
 	step("stats/archived-false-negatives", get("/api/v1/all-device-stats?timeslot_offset=0&insert_false_negatives=true"))
-	step("report/before-window", func() string { drv.SetClock(2100); return udp(dA.Report(2000, 500).Bytes())() })
-	step("report/beyond-window", func() string { drv.SetClock(5716); return udp(dA.Report(6048, 500).Bytes())() })
+	step("report/before-window", func() string { setClock(2100); return udp(dA.Report(2000, 500).Bytes())() })
+	step("report/beyond-window", func() string { setClock(5716); return udp(dA.Report(6048, 500).Bytes())() })
 	step("report/window-end", func() string { return udp(dA.Report(6047, 500).Bytes())() })
-	step("impact/clock-before-window", func() string { drv.SetClock(1000); defer drv.SetClock(3201); return impactStep() })
+	step("impact/clock-before-window", func() string { setClock(1000); defer setClock(3201); return impactStep() })
 
 	// ---- restart with start-up catch-up rotations
 	step("restart/catch-up", func() string {
@@ -239,7 +239,7 @@ func childPaths(b run.Batch, r *ev.Result) {
 		if err := w.Close(); err != nil {
 			return "err:" + err.Error()
 		}
-		drv.SetClock(2016 + 4100)
+		setClock(2016 + 4100)
 		if err := w.Start(); err != nil {
 			return "err:" + err.Error()
 		}
